@@ -79,6 +79,44 @@ class Scenario:
                 continue
             yield self.path_to(e["_from"]) + [e]
 
+    def focused_paths(self, rng, depth=3, cap=400):
+        """Histories around one feature: for every feature X of the base, ALL op sequences of `depth` steps from the
+        initial state that only use operations on X, on what X refers to and on what refers to X (capped by sampling).
+        Hidden state that is not a function of the abstract state (side tables left behind by an implicit copy, stale
+        index entries, caches) depends on such short histories, which shortest prefixes never take."""
+        base = self.base()
+
+        def refs(f):
+            out = set(f.get("pts") or []) | set(f.get("members") or [])
+            for poly in f.get("polys") or []:
+                out |= set(poly)
+            return out
+        seen = set()
+        for x in sorted(base):
+            if base[x]["kind"] == "absent":
+                continue
+            related = {x} | refs(base[x]) | {y for y in base if base[y]["kind"] != "absent" and x in refs(base[y])}
+            seqs = []
+
+            def rec(u, path):
+                if len(path) == depth:
+                    seqs.append(list(path))
+                    return
+                for e in self.out[u]:
+                    ev = e["ev"]
+                    if ev.get("op") in ("add", "addtag", "rmtag") and ev.get("id") in related:
+                        path.append(e)
+                        rec(e["_to"], path)
+                        path.pop()
+            rec(self.init, [])
+            if len(seqs) > cap:
+                seqs = rng.sample(seqs, cap)
+            for p in seqs:
+                k = tuple(id(e) for e in p)
+                if k not in seen:
+                    seen.add(k)
+                    yield p
+
     def random_walk(self, rng, length):
         u, path = self.init, []
         for _ in range(length):
@@ -112,7 +150,7 @@ def queries(ctx, sc):
 
 
 def make_cases(ctx, sc, impls, sections, queries_json, keys, select=None, walks=0, walk_len=8, cores=1,
-               max_edge_paths=None, rng=None, impl_caps=None, end_walks=None):
+               max_edge_paths=None, rng=None, impl_caps=None, end_walks=None, focused=0):
     cases = []
     ids = sc.ids()
     base = sc.base()
@@ -138,6 +176,8 @@ def make_cases(ctx, sc, impls, sections, queries_json, keys, select=None, walks=
             closing = [e for e in sc.out[u] if e["ev"]["op"] == op]
             if closing:
                 walk_only.append(p + [rng.choice(closing)])
+    if focused:
+        walk_only += list(sc.focused_paths(rng, depth=3, cap=focused))
     paths = edge_only + walk_only
     for impl in impls:
         ipaths = paths
@@ -162,8 +202,8 @@ def make_cases(ctx, sc, impls, sections, queries_json, keys, select=None, walks=
 
 
 def run_family(ctx, prop, scenarios, impls, sections, select=None, meta_rule="", level="model_checking",
-               assumptions=None, finish=True, max_paths=None, impl_caps=None, end_walks=None):
-    """Common body of the MutableWorld family checks."""
+               assumptions=None, finish=True, max_paths=None, impl_caps=None, end_walks=None, focused=None):
+    """Common body of the MutableWorld family checks.  focused=(quick cap, thorough cap) per feature, see focused_paths."""
     binary = ctx.go_build("vh-world")
     rng = random.Random(ctx.seed * 7919 + 13)
     total_edges = 0
@@ -181,7 +221,8 @@ def run_family(ctx, prop, scenarios, impls, sections, select=None, meta_rule="",
                                    walk_len=ctx.pick(8, 14), cores=ctx.pick(1, 3), rng=rng,
                                    max_edge_paths=(max_paths or {}).get(n, ctx.pick(900, None)) if ctx.quick else None,
                                    impl_caps=dict(DEFAULT_IMPL_CAPS, **((impl_caps or {}).get(n) or {})) if ctx.quick else None,
-                                   end_walks=(end_walks[0] if ctx.quick else end_walks[1]) if end_walks else None)
+                                   end_walks=(end_walks[0] if ctx.quick else end_walks[1]) if end_walks else None,
+                                   focused=(focused[0] if ctx.quick else focused[1]) if focused else 0)
         total_edges += len(sc.edges)
         total_paths += npaths
         if cases:
